@@ -56,27 +56,35 @@ IsPow2(d) == IF d = 1 THEN TRUE ELSE IF (d % 2) = 1 THEN FALSE ELSE IsPow2(d \di
 \* so arithmetic on them is exact in the implementation as long as the
 \* exact result is dyadic too (or is rounded only once, at the very end).
 Dyadic(x) == IsPow2(x.d)
-IsInteger(x) == x.d = 1
+IsInteger(x) == x.d = 1 \/ x.n = 0
+
+\* IEEE zero has a sign that exact rationals do not have.  A zero whose sign the model does not
+\* track ("-0", 0 * -1, -4 % 2, ...) is written 0/2: it behaves as 0 everywhere, but its string
+\* form is not decided by the specification (the port prints "-0" for a negative zero).
+ZeroU == [t |-> "num", n |-> 0, d |-> 2]
+IsZeroU(x) == x.n = 0 /\ x.d = 2
 
 NumAdd(x, y) == IF ~(Dyadic(x) /\ Dyadic(y)) THEN NumX
                 ELSE IF MulFits(x.n, y.d) /\ MulFits(y.n, x.d) /\ MulFits(x.d, y.d)
                         /\ AbsI(x.n * y.d) + AbsI(y.n * x.d) <= Lim
-                     THEN Num(x.n * y.d + y.n * x.d, x.d * y.d) ELSE NumX
-NumNeg(x)    == [t |-> "num", n |-> 0 - x.n, d |-> x.d]
+                     THEN (IF IsZeroU(x) /\ IsZeroU(y) THEN ZeroU ELSE Num(x.n * y.d + y.n * x.d, x.d * y.d)) ELSE NumX
+NumNeg(x)    == IF x.n = 0 THEN ZeroU ELSE [t |-> "num", n |-> 0 - x.n, d |-> x.d]
 NumSub(x, y) == NumAdd(x, NumNeg(y))
 NumMul(x, y) == IF ~(Dyadic(x) /\ Dyadic(y)) THEN NumX
                 ELSE IF MulFits(x.n, y.n) /\ MulFits(x.d, y.d)
-                     THEN Num(x.n * y.n, x.d * y.d) ELSE NumX
+                     THEN (IF (x.n = 0 \/ y.n = 0) /\ (x.n < 0 \/ y.n < 0 \/ IsZeroU(x) \/ IsZeroU(y)) THEN ZeroU
+                           ELSE Num(x.n * y.n, x.d * y.d)) ELSE NumX
 \* y # 0.  The exact quotient; when it is not dyadic the implementation's
 \* double is the correctly rounded quotient (one IEEE operation) and the
 \* harness projects that double back onto the unique small rational.
 NumDiv(x, y) == IF ~(Dyadic(x) /\ Dyadic(y)) THEN NumX
                 ELSE IF MulFits(x.n, y.d) /\ MulFits(x.d, y.n)
-                     THEN Num(SignI(y.n) * x.n * y.d, x.d * AbsI(y.n)) ELSE NumX
+                     THEN (IF x.n = 0 /\ (y.n < 0 \/ IsZeroU(x)) THEN ZeroU
+                           ELSE Num(SignI(y.n) * x.n * y.d, x.d * AbsI(y.n))) ELSE NumX
 NumLt(x, y)  == IF MulFits(x.n, y.d) /\ MulFits(y.n, x.d) THEN x.n * y.d < y.n * x.d
                 ELSE \* compare by sign and magnitude without multiplying: fall back on integer parts
                      (x.n \div x.d) < (y.n \div y.d)
-NumEq(x, y)  == x.n = y.n /\ x.d = y.d
+NumEq(x, y)  == x.n = y.n /\ (x.n = 0 \/ x.d = y.d)
 NumIsZero(x) == x.n = 0
 \* floor and truncation of a rational
 NumFloor(x)  == x.n \div x.d                       \* TLC's \div is floor division
@@ -85,7 +93,7 @@ NumTrunc(x)  == SignI(x.n) * (AbsI(x.n) \div x.d)
 NumMod(x, y) == IF ~(Dyadic(x) /\ Dyadic(y)) THEN NumX
                 ELSE IF ~(MulFits(x.n, y.d) /\ MulFits(y.n, x.d) /\ MulFits(x.d, y.d)) THEN NumX
                 ELSE LET a == AbsI(x.n) * y.d   b == AbsI(y.n) * x.d   c == x.d * y.d
-                     IN  Num(SignI(x.n) * (a % b), c)
+                     IN  IF (a % b) = 0 /\ (x.n < 0 \/ IsZeroU(x)) THEN ZeroU ELSE Num(SignI(x.n) * (a % b), c)
 
 ---------------------------------------------------------------------------
 (* Sequences helpers                                                        *)
@@ -138,7 +146,8 @@ ObjVals(o) == [i \in 1..Len(o.m) |-> o.m[i][2]]
 (* Identity-insensitive equality, kinds, truthiness                        *)
 
 RECURSIVE Strip(_)
-Strip(x) == CASE x.t = "arr" -> Arr([i \in 1..Len(x.v) |-> Strip(x.v[i])])
+Strip(x) == CASE x.t = "num" -> IF x.n = 0 THEN [t |-> "num", n |-> 0, d |-> 1] ELSE x
+              [] x.t = "arr" -> Arr([i \in 1..Len(x.v) |-> Strip(x.v[i])])
               [] x.t = "obj" -> Obj([i \in 1..Len(x.m) |-> <<x.m[i][1], Strip(x.m[i][2])>>])
               [] OTHER -> x
 
@@ -165,7 +174,7 @@ HasNonDyadic(x) == CASE x.t = "num" -> ~Dyadic(x)
 
 \* JSON equality on function-free values (O2).  Tags first.
 JEq(a, b) == IF a.t # b.t THEN FALSE
-             ELSE IF a.t \in {"arr", "obj"} THEN Strip(a) = Strip(b)
+             ELSE IF a.t \in {"arr", "obj", "num"} THEN Strip(a) = Strip(b)
              ELSE a = b
 
 Arrayify(x) == IF IsUndef(x) THEN <<>> ELSE IF IsArr(x) THEN x.v ELSE <<x>>
